@@ -213,7 +213,9 @@ func (s sortedSecrets) List(ctx context.Context, o metav1.ListOptions) (*corev1.
 	return l, err
 }
 
-type sortedConfigMaps struct{ corev1client.ConfigMapInterface }
+type sortedConfigMaps struct {
+	corev1client.ConfigMapInterface
+}
 
 func (s sortedConfigMaps) List(ctx context.Context, o metav1.ListOptions) (*corev1.ConfigMapList, error) {
 	l, err := s.ConfigMapInterface.List(ctx, o)
